@@ -22,6 +22,12 @@ GROUPS = {
    [('get_shape_counts_is_model', 'get_shape_counts_eq'), ('accept_is_counts_and_order', 'acceptB_counts'),
     ('chk_order_check_is_cellwise', 'chk_order_check_eq'), ('cells_are_model_blocks', 'cells_eq_chunks'),
     ('get_shape_accepts_iff_model', 'source_accepts_iff')]),
+ 'values': ('dcmmeta.py: value-list arithmetic of get_subset / from_sequence (_get_changed_class, _copy_slice, _global_slice_subset, the interleaving of _insert_slice / _insert_sample)',
+   [('get_changed_class_is_model', 'get_changed_class_eq'), ('copy_slice_dest_is_model', 'copy_slice_dest_eq'),
+    ('copy_slice_vals_is_model', 'copy_slice_vals_eq'), ('copy_slice_vals_zero_div', 'copy_slice_vals_zero_div'),
+    ('global_slice_subset_is_model', 'global_slice_subset_eq'),
+    ('insert_slice_interleave_is_model', 'insert_slice_interleave_eq'), ('insert_sample_interleave_is_model', 'insert_sample_interleave_eq'),
+    ('slice_step_is_model', 'pyStep_eq')]),
  'data': ('dcmstack.py: DicomStack.get_data',
    [('file_idx_is_model', 'file_idx_eq'), ('file_idx_volume_is_model', 'file_idx_volume_eq'),
     ('get_data_trim_is_model', 'get_data_trim_eq')]),
